@@ -60,7 +60,20 @@ pub fn execute(scen: &'static Scenario, input: RunInput) -> RunOutput {
         .build()
         .unwrap();
     let run = scen.run;
-    let result = std::panic::catch_unwind(std::panic::AssertUnwindSafe(|| rt.block_on(run(input))));
+    let result = std::panic::catch_unwind(std::panic::AssertUnwindSafe(|| {
+        rt.block_on(async move {
+            // cap on simulated time per run: a scenario that never finishes (in virtual time) is a
+            // harness error, not a verdict
+            match tokio::time::timeout(Duration::from_secs(6 * 3600), run(input)).await {
+                Ok(out) => out,
+                Err(_) => {
+                    let mut out = RunOutput::default();
+                    out.harness_error = Some(format!("scenario {} exceeded the simulated-time cap of 6 h (seed {seed})", scen.name));
+                    out
+                }
+            }
+        })
+    }));
     let dropped = std::panic::catch_unwind(std::panic::AssertUnwindSafe(move || drop(rt)));
     anemo::verif::set_active(false);
     let panics = take_panics();
@@ -82,6 +95,20 @@ pub fn execute(scen: &'static Scenario, input: RunInput) -> RunOutput {
             key: panic_key(panics.last().map(|s| s.as_str()).unwrap_or("")),
             msg: format!("dropping the runtime panicked: {:?}", panics.last()),
         });
+    }
+    // No harness task ever panics on purpose: any panic observed on this thread during the run
+    // happened inside the code under test (anemo re-raises request-task panics up to the
+    // connection manager, so each is a network kill switch). It takes precedence over its
+    // consequences.
+    if let Some(first) = panics.first() {
+        let already = out.violation.as_ref().map(|v| v.class.starts_with("panic")).unwrap_or(false);
+        if !already {
+            out.violation = Some(Violation {
+                class: "panic".into(),
+                key: panic_key(first),
+                msg: format!("{} panic(s) during the run; first: {}", panics.len(), first.lines().take(3).collect::<Vec<_>>().join(" | ")),
+            });
+        }
     }
     out.panics = panics;
     out
